@@ -18,7 +18,7 @@ INFO = {
                    "flush_every_ms, mode, use_compression), the mode strings map to the same-named variants, and Default sets all six; the guard that refuses an existing location for a temporary (delete-on-drop) database tests the effective value handed to the builder, not the raw option. "
                    "R16-4 PmTree::new = load(config), and new(depth, same config) only when load reported DatabaseError(CannotLoadDatabase) - every other "
                    "load failure is returned; SledDB::load returns Ok only for a recovered location and that error value only for an unrecovered one; "
-                   "no open failure is that value; load and new open through the same retrying routine.",
+                   "no open failure is that value; load and new open through the same retrying routine. R16-5 a method that replaces the instance's tree builds the new one from the instance's storage configuration (not ZerokitMerkleTree::default).",
     "not_decided": "what is on disk after a crash or an injected failure at write k, and equality of root/leaves/metadata after reopen "
                    "(behaviour of sled and pmtree over histories and fault positions: dynamic; the property's suggested fault hook is not used)",
     "assumptions": ["sled::Db::flush/insert/apply_batch return Err when the write fails", "pmtree propagates the Database errors it receives"],
@@ -427,6 +427,33 @@ def check_open(ctx, fb):
               why or "expected 2 success paths, creation and rejection arms; found %d / %d / %d" % (len(oks), n_create, n_reject), loc(it))
 
 
+def check_tree_replacement(ctx, fb):
+    """R16-5: the instance keeps the storage it was configured with: a method that replaces RLN.tree must build the new tree from the
+    instance's configuration; building it with ZerokitMerkleTree::default (a fresh temporary database) detaches every later update,
+    and flush(), from the configured location"""
+    n = 0
+    for path, it in sorted(fb.items.items()):
+        if it.kind not in ("Fn", "AssocFn") or it.file != "rln/src/public.rs" or it.get("test") or not path.startswith("rln::public::RLN::"):
+            continue
+        if len(it.locals) < 2 or not it.locals[1]["ty"].startswith("&mut "):
+            continue
+        eng = Engine(fb, inline=lambda i: False)
+        hit = None
+        for p in eng.run(it):
+            w = [e for e in p.trace if e[0] == "write" and e[1][1] == -1 and e[2] and e[2][0] == ("f", "tree") and len(e[2]) == 1]
+            if not w:
+                continue
+            n += 1
+            v = w[0][3]
+            defs = [t for t in subterms(v) if isinstance(t, tuple) and t and t[0] == "call" and isinstance(t[1], str) and re.search(r"ZerokitMerkleTree>::default$", t[1])]
+            if defs:
+                hit = p
+        if hit is not None:
+            ctx.fail("R16-5", "%s replaces the tree with a default one" % path, "%s stores a tree built by ZerokitMerkleTree::default (default, temporary storage) into the instance: updates made "
+                     "afterwards, and flush(), no longer reach the location the instance was configured with" % path, loc(it, hit.site))
+    ctx.floor("tree-replacement-sites", n, 2)
+
+
 def run(ctx):
     ctx.prefetch(["default", "fixtures"])
     fb = ctx.fb("default")
@@ -451,6 +478,7 @@ def run(ctx):
     check_flush(ctx, fb)
     check_config(ctx, fb)
     check_open(ctx, fb)
+    check_tree_replacement(ctx, fb)
     # fixtures
     fx = ctx.fb("fixtures")
     from ..main import Ctx
